@@ -1434,7 +1434,8 @@ impl Cluster {
                     "leaseAny": view.lease_valid_any,
                     "next": next, "match": mtch, "durable": h.raft_log.durable_index(),
                     "persisted": h.se.l.last_index(),
-                    "hs": hs, "view": mv, "inc": slot.incarnation, "snapIdx": snap_idx(&h.sm),
+                    "hs": hs, "view": mv, "inc": slot.incarnation,
+                    "snapIdx": h.smh.get_latest_snapshot_metadata().and_then(|m| m.last_included).map(|l| l.index).unwrap_or(0),
                     "initSize": self.cfg.initial[&n].len()})
             }
         }
